@@ -89,8 +89,11 @@ class Run(object):
         for f in self.open_findings:
             if 'obligation' in f and obligation != f['obligation']:
                 continue
-            if 'obligation_glob' in f and not fnmatch.fnmatchcase(obligation, f['obligation_glob']):
-                continue
+            if 'obligation_glob' in f:
+                globs = f['obligation_glob']
+                globs = globs if isinstance(globs, list) else [globs]
+                if not any(fnmatch.fnmatchcase(obligation, g) for g in globs):
+                    continue
             cases = f.get('cases')
             if cases is not None and case in cases:
                 return f
@@ -149,7 +152,7 @@ class Run(object):
         for d in by_backend.values():
             d['ms'] = round(d['ms'], 1)
         crash = None
-        if n_obl < self.floor:
+        if n_obl < self.floor and not self.degraded and not self.violations:
             crash = 'obligation count %d below floor %d (vacuity guard)' % (n_obl, self.floor)
         cov = dict(
             obligations=n_obl, discharged=n_dis,
@@ -201,7 +204,9 @@ class Run(object):
         print('%s: %d obligations, %d discharged, %d bounded cases, %d violations, %.1fs' % (
             self.prop, n_obl, n_dis, ev_cases, len(self.violations), wall))
         sys.stdout.flush()
+        if self.violations:
+            return 1
         if crash:
             print('CHECKER-ERROR: %s' % crash)
             return 3
-        return 1 if self.violations else 0
+        return 0
